@@ -509,6 +509,50 @@ def _nested_binder_seqs():
 
 COMMAND_SEQS += _nested_binder_seqs()
 
+
+def _garbage_seqs():
+    """a valid command head followed by trailing garbage / a missing parenthesis, for every command that could set
+    parser or cache state before it has consumed its closing parenthesis; then probes sensitive to that state"""
+    pre = "(declare-fun i () Int)(declare-fun rr () Real)(declare-fun bb () Bool)"
+    numerals = ["(assert (= i 3))", "(assert (= rr 3))", "(assert (and bb (< i 2) (< rr 2.5)))"]
+    heads = [
+        ("set-logic", "(set-logic QF_LRA", numerals),
+        ("set-logic2", "(set-logic QF_BV", numerals),
+        ("set-logic3", "(set-logic QF_NIA", numerals),
+        ("set-option", "(set-option :produce-models true", numerals),
+        ("set-info", "(set-info :status sat", numerals),
+        ("declare-fun", "(declare-fun nn () Int", ["(assert (> nn 0))", "(declare-fun nn () Int)", "(assert (> nn i))"]),
+        ("declare-const", "(declare-const nc Int", ["(assert (> nc 0))", "(declare-const nc Int)"]),
+        ("declare-sort", "(declare-sort SS 0", ["(declare-fun q1 () SS)", "(declare-sort SS 0)", "(declare-fun q2 () SS)"]),
+        ("define-fun", "(define-fun dd () Int 5", ["(assert (> dd 0))", "(define-fun dd () Int 6)", "(assert (> dd i))"]),
+        ("define-fun-params", "(define-fun de ((k Int)) Int (+ k 1)", ["(assert (> (de i) 0))", "(assert (> k 0))"]),
+        ("define-sort", "(define-sort DS () Int", ["(declare-fun q3 () DS)"]),
+        ("push", "(push 1", numerals[:1] + ["(pop 1)"]),
+        ("pop", "(pop 1", numerals[:1]),
+        ("assert", "(assert (> i 0)", numerals[:1]),
+        ("check-sat", "(check-sat", numerals[:1]),
+        ("get-value", "(get-value (i)", numerals[:1]),
+    ]
+    out = []
+    for name, head, later in heads:
+        out.append(("garbage:%s:extra-token" % name, pre, head + " extra_token)", later, "plain"))
+        out.append(("garbage:%s:extra-list" % name, pre, head + " (extra list))", later, "plain"))
+        out.append(("garbage:%s:unterminated" % name, pre, head, later, "plain"))
+    return out
+
+
+COMMAND_SEQS += _garbage_seqs()
+COMMAND_SEQS += [
+    # a failing term inside get-value, a failing get_assignment_list
+    ("get-value-bad-term", Y, "(get-value ((+ y zz)))", ["(get-value (y))", "(assert (> y 0))"], "plain"),
+    ("get-value-bad-let", Y, "(get-value ((let ((t 1)) (+ t zz))))", ["(assert (> t y))", "(get-value (y))"],
+     "uses-leaked-binder"),
+    ("assignment-list-bad", Y, "@assign:((y 3) (zz", ["(assert (> y 0))", "@assign:((y 4))"], "plain"),
+    ("assignment-list-bad-let", Y, "@assign:((y (let ((t 1)) (+ t zz))))", ["(assert (> t y))"], "uses-leaked-binder"),
+    # a failing quantified assertion has already created the symbols of its bound variables in the manager
+    ("quantifier-symbol-leak", Y, "(assert (forall ((w Int)) zz))", ["(declare-fun w () Real)"], "declare-other-sort"),
+]
+
 _FRESH_NAME = __import__("re").compile(r"__([A-Za-z_]+?)\d+")
 
 
@@ -524,6 +568,10 @@ def scenario_commands(ctx, idx, stats):
             out, norm = [], []
 
             def cmds(text):
+                if text.startswith("@assign:"):
+                    lst = parser.get_assignment_list(io.StringIO(text[len("@assign:"):]))
+                    return ([("assign", [W.result_key(list(p_), ac=False) for p_ in lst])],
+                            [("assign", [str(p_) for p_ in lst])])
                 res = list(parser.get_command_generator(io.StringIO(text)))
                 return ([(c.name, [W.result_key(a, ac=False) for a in c.args]) for c in res],
                         [(c.name, [_FRESH_NAME.sub(r"__\1#", str(a)) for a in c.args]) for c in res])
@@ -547,7 +595,7 @@ def scenario_commands(ctx, idx, stats):
     ctx.case(("commands", name))
     if got[0] != ref[0]:
         only_names = got[1] == ref[1]
-        ctx.report_s({"oracle": "parser-command-sequence", "fail": name.split(":")[0],
+        ctx.report_s({"oracle": "parser-command-sequence", "fail": name.split(":")[0], "shape": name,
                       "probe": "fresh-name" if only_names else probe_kind},
                      "parser object: after the failing command %s the commands %s give %s; without the failing "
                      "command %s" % (bad, later, str(got[1])[:160], str(ref[1])[:160]),
@@ -631,6 +679,128 @@ def solver_run(fail, with_fail):
             pass
 
 
+def make_fake_solver_class():
+    from pysmt.solvers.solver import IncrementalTrackingSolver
+    from pysmt.solvers.options import SolverOptions
+    from pysmt.decorators import clear_pending_pop
+    from pysmt.exceptions import ConvertExpressionError, InternalSolverError, SolverReturnedUnknownResultError
+    from pysmt.logics import QF_BOOL
+    import itertools
+
+    class FakeTracking(IncrementalTrackingSolver):
+        """Boolean enumerating solver, decorated like solvers/z3.py; the k-th call of a primitive can be made to raise"""
+        LOGICS = [QF_BOOL]
+        OptionsClass = SolverOptions
+
+        def __init__(self, environment, logic=QF_BOOL, **options):
+            IncrementalTrackingSolver.__init__(self, environment, logic, **options)
+            self.levels = [[]]
+            self.fail_next = None        # name of the primitive whose next call raises
+
+        def _maybe_fail(self, name, exc):
+            if self.fail_next == name:
+                self.fail_next = None
+                raise exc
+
+        @clear_pending_pop
+        def _reset_assertions(self):
+            self.levels = [[]]
+
+        @clear_pending_pop
+        def _add_assertion(self, formula, named=None):
+            self._maybe_fail("add", ConvertExpressionError(message="cannot convert", expression=formula))
+            self.levels[-1].append(formula)
+            return formula
+
+        @clear_pending_pop
+        def _solve(self, assumptions=None):
+            self._maybe_fail("solve", SolverReturnedUnknownResultError())
+            fs = [f for lv in self.levels for f in lv] + list(assumptions or [])
+            m = self.environment.formula_manager
+            syms = sorted(set().union(*[f.get_free_variables() for f in fs]) if fs else [], key=lambda s_: s_.symbol_name())
+            for vals in itertools.product([False, True], repeat=len(syms)):
+                asg = {s_: m.Bool(v) for s_, v in zip(syms, vals)}
+                if all(f.substitute(asg).simplify().is_true() for f in fs):
+                    return True
+            return False
+
+        @clear_pending_pop
+        def _push(self, levels=1):
+            self._maybe_fail("push", InternalSolverError("push refused"))
+            for _ in range(levels):
+                self.levels.append([])
+
+        @clear_pending_pop
+        def _pop(self, levels=1):
+            for _ in range(levels):
+                self.levels.pop()
+
+        def _exit(self):
+            pass
+
+    return FakeTracking
+
+
+TRACK_FAILS = [(q, prim) for q in ("is_sat", "is_valid", "is_unsat") for prim in ("add", "solve", "push")]
+
+
+def tracking_run(Fake, query, prim, with_fail):
+    env = Environment()
+    m = env.formula_manager
+    a, b, c, d = [m.Symbol(nm) for nm in "abcd"]
+    s = Fake(env)
+    out = []
+
+    def do(name, th):
+        k, v = outcome(th)
+        out.append((name, k, W.result_key(v, ac=False) if k == "ok" else v))
+    s.add_assertion(m.Or(a, b))
+    s.push()
+    s.add_assertion(m.Not(a))
+    getattr(s, query)(m.And(b, c))            # leaves a pending pop behind
+    if with_fail:
+        s.fail_next = prim
+        call = {"add": lambda: s.add_assertion(m.Implies(c, d)), "solve": lambda: s.solve(),
+                "push": lambda: s.push()}[prim]
+        if outcome(call)[0] != "exc":
+            return None
+    do("assertions", lambda: list(s.assertions))
+    do("backend", lambda: [list(lv) for lv in s.levels] if not s.pending_pop else [list(lv) for lv in s.levels[:-1]])
+    do("is_sat", lambda: s.is_sat(m.And(a, b)))
+    do("is_sat2", lambda: s.is_sat(b))
+    do("solve", lambda: s.solve())
+    do("assertions2", lambda: list(s.assertions))
+    do("user_pop", lambda: s.pop())
+    do("assertions3", lambda: list(s.assertions))
+    do("is_sat3", lambda: s.is_sat(m.And(a, m.Not(b))))
+    do("is_valid", lambda: s.is_valid(m.Or(a, b)))
+    do("push_add", lambda: (s.push(), s.add_assertion(d), s.solve()))
+    do("assertions4", lambda: list(s.assertions))
+    do("user_pop2", lambda: s.pop())
+    do("assertions5", lambda: list(s.assertions))
+    do("pop_too_many", lambda: s.pop())
+    return out
+
+
+def scenario_tracking(ctx, idx, stats, Fake):
+    query, prim = TRACK_FAILS[idx % len(TRACK_FAILS)]
+    got, ref = tracking_run(Fake, query, prim, True), tracking_run(Fake, query, prim, False)
+    if got is None:
+        ctx.case(None)
+        return
+    ctx.count("fail:tracking-solver")
+    ctx.case(("tracking", query, prim))
+    for g, r in zip(got, ref):
+        if g != r:
+            ctx.report_s({"oracle": "tracking-solver", "fail": "%s-then-failing-%s" % (query, prim),
+                          "probe": g[0].rstrip("0123456789")},
+                         "IncrementalTrackingSolver: after %s(...) and a %s that raises, the probe %s gives %s; on a "
+                         "twin solver that skipped the failing call %s" % (query, prim, g[0], str(g[1:])[:100],
+                                                                             str(r[1:])[:100]),
+                         {"fail": "tracking:%d" % (idx % len(TRACK_FAILS))})
+            break
+
+
 def scenario_solver(ctx, idx, stats):
     fail = SOLVER_FAILS[idx % len(SOLVER_FAILS)]
     try:
@@ -693,6 +863,9 @@ def run(ctx):
     # 2b. solver objects
     for i in range(len(SOLVER_FAILS)):
         scenario_solver(ctx, i, stats)
+    Fake = make_fake_solver_class()
+    for i in range(len(TRACK_FAILS)):
+        scenario_tracking(ctx, i, stats, Fake)
     # 3. injection at the k-th callback: exhaustive in k for small pools, sampled for the others
     nspec = len(walker_specs())
     exhaustive_pool = (rng.randrange(10 ** 9), 6)
@@ -758,6 +931,9 @@ def replay(ctx, rep):
     stats = {"ac_fallback": 0}
     ref_cache = {}
     fail = r.get("fail", "")
+    if fail.startswith("tracking:"):
+        scenario_tracking(ctx, int(fail.split(":")[1]), stats, make_fake_solver_class())
+        return
     if fail.startswith("solver:"):
         scenario_solver(ctx, SOLVER_FAILS.index(fail.split(":", 1)[1]), stats)
         return
